@@ -8,8 +8,11 @@ import (
 	"os/exec"
 	"strconv"
 	"strings"
+	"sync/atomic"
 	"time"
 )
+
+var traceSeq int32
 
 type SatResult int
 
@@ -56,7 +59,10 @@ func (s *Solver) start() {
 	s.in = in
 	s.out = bufio.NewReaderSize(out, 1<<16)
 	if f := os.Getenv("GOSYM_SMT_TRACE"); f != "" && s.trace == nil {
-		w, _ := os.OpenFile(f, os.O_CREATE|os.O_WRONLY|os.O_APPEND, 0o644)
+		// one file per solver process (workers run concurrently); answers are recorded as "; => <answer>" comments
+		// so that tools/crosscheck.py can replay the script on other solvers and compare verdicts
+		n := atomic.AddInt32(&traceSeq, 1)
+		w, _ := os.OpenFile(fmt.Sprintf("%s.%d.smt2", f, n), os.O_CREATE|os.O_WRONLY|os.O_TRUNC, 0o644)
 		s.trace = w
 	}
 	s.Reset()
@@ -171,6 +177,9 @@ func (s *Solver) checkSat() SatResult {
 	line := s.readLine()
 	s.Queries++
 	s.Time += time.Since(t0)
+	if s.trace != nil {
+		fmt.Fprintln(s.trace, "; => "+line)
+	}
 	switch line {
 	case "sat":
 		return Sat
